@@ -9,3 +9,5 @@ open Dashu.Props.C05
 #print axioms float_spec_is_extended_value_order
 #print axioms float_spec_trans
 #print axioms float_cmp_is_extended_value_order
+#print axioms float_history_value_order_any_precision
+#print axioms float_history_cmp_total_order
